@@ -23,44 +23,44 @@ import (
 )
 
 const (
-	nLeaf = iota
-	nErrLeaf
-	nFifo
-	nPrio
-	nFilter
+	zznLeaf = iota
+	zznErrLeaf
+	zznFifo
+	zznPrio
+	zznFilter
 )
 
 // rnode is the reference (abstract) configuration tree built next to the JSON text.
-type rnode struct {
+type zzrnode struct {
 	kind     int
 	label    string
 	req, res bool // message kinds named by the node's scope
 	agg      bool
-	kids     []*rnode
+	kids     []*zzrnode
 	prios    []int64
 	cond     int // filter: index of the X-Cond-i header tested
-	els      *rnode
+	els      *zzrnode
 }
 
-type gen struct {
+type zzgen struct {
 	labels int
 	conds  int
 	scopes int // number of scope variants used below the root
 }
 
-var scopeJSON = []string{"", `"scope": ["request", "response"], `, `"scope": ["request"], `, `"scope": ["response"], `, `"scope": [], `}
-var scopeReq = []bool{true, true, true, false, false}
-var scopeRes = []bool{true, true, false, true, false}
+var zzscopeJSON = []string{"", `"scope": ["request", "response"], `, `"scope": ["request"], `, `"scope": ["response"], `, `"scope": [], `}
+var zzscopeReq = []bool{true, true, true, false, false}
+var zzscopeRes = []bool{true, true, false, true, false}
 
-func (g *gen) node(depth, fanout int, root bool) (string, *rnode) {
-	n := &rnode{}
+func (g *zzgen) node(depth, fanout int, root bool) (string, *zzrnode) {
+	n := &zzrnode{}
 	ns := g.scopes
 	if root {
-		ns = len(scopeJSON)
+		ns = len(zzscopeJSON)
 	}
 	sc := vf.Choice("scope", ns)
-	n.req, n.res = scopeReq[sc], scopeRes[sc]
-	scope := scopeJSON[sc]
+	n.req, n.res = zzscopeReq[sc], zzscopeRes[sc]
+	scope := zzscopeJSON[sc]
 	kinds := 2
 	if depth > 0 {
 		kinds = 5
@@ -70,13 +70,13 @@ func (g *gen) node(depth, fanout int, root bool) (string, *rnode) {
 		n.kind = 2 + vf.Choice("root", 3)
 	}
 	switch n.kind {
-	case nLeaf:
+	case zznLeaf:
 		g.labels++
 		n.label = "L" + strconv.Itoa(g.labels)
 		return `{"header.Append": {` + scope + `"name": "X-Trace", "value": "` + n.label + `"}}`, n
-	case nErrLeaf:
+	case zznErrLeaf:
 		return `{"header.Append": {` + scope + `"name": "Content-Length", "value": "1"}}`, n
-	case nFifo:
+	case zznFifo:
 		n.agg = vf.Choice("aggregate", 2) == 1
 		k := 1 + vf.Choice("children", fanout)
 		js := `{"fifo.Group": {` + scope
@@ -93,7 +93,7 @@ func (g *gen) node(depth, fanout int, root bool) (string, *rnode) {
 			n.kids = append(n.kids, c)
 		}
 		return js + `]}}`, n
-	case nPrio:
+	case zznPrio:
 		k := 1 + vf.Choice("children", fanout)
 		js := `{"priority.Group": {` + scope + `"modifiers": [`
 		for i := 0; i < k; i++ {
@@ -112,7 +112,7 @@ func (g *gen) node(depth, fanout int, root bool) (string, *rnode) {
 		g.conds++
 		n.cond = g.conds
 		tj, t := g.node(depth-1, fanout, false)
-		n.kids = []*rnode{t}
+		n.kids = []*zzrnode{t}
 		js := `{"header.Filter": {` + scope + `"name": "X-Cond-` + strconv.Itoa(n.cond) + `", "value": "1", "modifier": ` + tj
 		if vf.Choice("else", 2) == 1 {
 			ej, e := g.node(depth-1, fanout, false)
@@ -125,17 +125,17 @@ func (g *gen) node(depth, fanout int, root bool) (string, *rnode) {
 
 // eval is the depth-first reference evaluation: it appends leaf labels to
 // trace and returns the number of errors reported by the node.
-func (n *rnode) eval(isReq bool, conds []bool, trace *[]string) int {
+func (n *zzrnode) eval(isReq bool, conds []bool, trace *[]string) int {
 	if (isReq && !n.req) || (!isReq && !n.res) {
 		return 0
 	}
 	switch n.kind {
-	case nLeaf:
+	case zznLeaf:
 		*trace = append(*trace, n.label)
 		return 0
-	case nErrLeaf:
+	case zznErrLeaf:
 		return 1
-	case nFifo:
+	case zznFifo:
 		total := 0
 		for _, c := range n.kids {
 			if e := c.eval(isReq, conds, trace); e > 0 {
@@ -146,7 +146,7 @@ func (n *rnode) eval(isReq bool, conds []bool, trace *[]string) int {
 			}
 		}
 		return total
-	case nPrio:
+	case zznPrio:
 		// descending priority, the later-listed first among equals
 		order := []int{}
 		for i := range n.kids {
@@ -178,7 +178,7 @@ func (n *rnode) eval(isReq bool, conds []bool, trace *[]string) int {
 	}
 }
 
-func countErrors(err error) int {
+func zzcountErrors(err error) int {
 	if err == nil {
 		return 0
 	}
@@ -188,7 +188,7 @@ func countErrors(err error) int {
 	return 1
 }
 
-type message struct {
+type zzmessage struct {
 	req   *http.Request
 	res   *http.Response
 	conds []bool
@@ -196,8 +196,8 @@ type message struct {
 
 // newMessage builds a request/response pair whose X-Cond-i headers carry one
 // symbolic byte each, so every filter condition can be true or false.
-func newMessage(nconds int) message {
-	m := message{conds: make([]bool, nconds+1)}
+func zznewMessage(nconds int) zzmessage {
+	m := zzmessage{conds: make([]bool, nconds+1)}
 	req := &http.Request{Method: "GET", URL: &url.URL{Scheme: "http", Host: "h", Path: "/"}, Host: "h", Header: http.Header{}, ContentLength: 5,
 		Proto: "HTTP/1.1", ProtoMajor: 1, ProtoMinor: 1, Body: ioutil.NopCloser(bytes.NewReader([]byte("12345")))}
 	res := &http.Response{StatusCode: 200, Header: http.Header{}, ContentLength: 5, Request: req, Proto: "HTTP/1.1", ProtoMajor: 1, ProtoMinor: 1,
@@ -212,7 +212,7 @@ func newMessage(nconds int) message {
 	return m
 }
 
-func sameTrace(got, want []string, tag string) {
+func zzsameTrace(got, want []string, tag string) {
 	vf.Assert(len(got) == len(want), tag+":same-number-of-leaf-applications")
 	if len(got) == len(want) {
 		for i := range got {
@@ -222,8 +222,8 @@ func sameTrace(got, want []string, tag string) {
 }
 
 // run applies the parsed configuration to a fresh message and compares with the reference.
-func run(r *parse.Result, root *rnode, nconds int, tag string) {
-	m := newMessage(nconds)
+func zzrun(r *parse.Result, root *zzrnode, nconds int, tag string) {
+	m := zznewMessage(nconds)
 	isReq := vf.Choice("message-kind", 2) == 0
 	var want []string
 	wantErrs := root.eval(isReq, m.conds, &want)
@@ -240,21 +240,21 @@ func run(r *parse.Result, root *rnode, nconds int, tag string) {
 		}
 		got = m.res.Header["X-Trace"]
 	}
-	sameTrace(got, want, tag)
-	vf.Assert(countErrors(err) == wantErrs, tag+":every-error-reported-once")
+	zzsameTrace(got, want, tag)
+	vf.Assert(zzcountErrors(err) == wantErrs, tag+":every-error-reported-once")
 }
 
 // VerifC12Tree: every configuration tree within the bound evaluates like the
 // depth-first reference.
 func VerifC12Tree() {
-	g := &gen{scopes: vf.Param("scopes")}
+	g := &zzgen{scopes: vf.Param("scopes")}
 	js, root := g.node(vf.Param("depth"), vf.Param("fanout"), true)
 	r, err := parse.FromJSON([]byte(js))
 	vf.Assert(err == nil, "valid-configuration-accepted")
 	if err != nil {
 		return
 	}
-	run(r, root, g.conds, "tree")
+	zzrun(r, root, g.conds, "tree")
 	vf.Reach("done")
 }
 
@@ -263,7 +263,7 @@ func VerifC12Tree() {
 // priority, the later-listed first among equals, ties at any rank).
 func VerifC12Priority() {
 	k := 2 + vf.Choice("children", vf.Param("fanout")-1)
-	root := &rnode{kind: nPrio, req: true, res: true}
+	root := &zzrnode{kind: zznPrio, req: true, res: true}
 	js := `{"priority.Group": {"modifiers": [`
 	for i := 0; i < k; i++ {
 		d := vf.String("priority", 1)
@@ -273,7 +273,7 @@ func VerifC12Priority() {
 			js += ", "
 		}
 		js += `{"priority": ` + d + `, "modifier": {"header.Append": {"name": "X-Trace", "value": "` + label + `"}}}`
-		root.kids = append(root.kids, &rnode{kind: nLeaf, label: label, req: true, res: true})
+		root.kids = append(root.kids, &zzrnode{kind: zznLeaf, label: label, req: true, res: true})
 		root.prios = append(root.prios, int64(d[0]-'0'))
 	}
 	js += `]}}`
@@ -282,7 +282,7 @@ func VerifC12Priority() {
 	if err != nil {
 		return
 	}
-	run(r, root, 0, "priority")
+	zzrun(r, root, 0, "priority")
 	vf.Reach("done")
 }
 
@@ -294,7 +294,7 @@ func VerifC12Filters() {
 	leafF := `{"header.Append": {"name": "X-Trace", "value": "F"}}`
 	kind := vf.Choice("filter", 4)
 	isReq := vf.Choice("message-kind", 2) == 0
-	m := newMessage(0)
+	m := zznewMessage(0)
 	var js string
 	cond := false
 	switch kind {
@@ -353,25 +353,25 @@ func VerifC12Filters() {
 	vf.Reach("done")
 }
 
-type rw struct {
+type zzrw struct {
 	h      http.Header
 	status int
 	body   bytes.Buffer
 }
 
-func (w *rw) Header() http.Header         { return w.h }
-func (w *rw) Write(b []byte) (int, error) { return w.body.Write(b) }
-func (w *rw) WriteHeader(s int)           { w.status = s }
+func (w *zzrw) Header() http.Header         { return w.h }
+func (w *zzrw) Write(b []byte) (int, error) { return w.body.Write(b) }
+func (w *zzrw) WriteHeader(s int)           { w.status = s }
 
-func post(m *Modifier, js string) int {
-	w := &rw{h: http.Header{}, status: 200}
+func zzpost(m *Modifier, js string) int {
+	w := &zzrw{h: http.Header{}, status: 200}
 	req := &http.Request{Method: "POST", URL: &url.URL{Path: "/configure"}, Header: http.Header{}, Body: ioutil.NopCloser(bytes.NewReader([]byte(js)))}
 	m.ServeHTTP(w, req)
 	return w.status
 }
 
-func traceOf(m *Modifier, isReq bool) []string {
-	msg := newMessage(0)
+func zztraceOf(m *Modifier, isReq bool) []string {
+	msg := zznewMessage(0)
 	if isReq {
 		m.ModifyRequest(msg.req)
 		return msg.req.Header["X-Trace"]
@@ -416,17 +416,17 @@ func VerifC12Reject() {
 
 	m := NewModifier()
 	a := `{"fifo.Group": {"modifiers": [` + leaf("A1") + `, ` + leaf("A2") + `]}}`
-	vf.Assert(post(m, a) == 200, "valid-post-accepted")
+	vf.Assert(zzpost(m, a) == 200, "valid-post-accepted")
 	isReq := vf.Choice("message-kind", 2) == 0
-	sameTrace(traceOf(m, isReq), []string{"A1", "A2"}, "after-accepted-post")
-	vf.Assert(post(m, cfg) == 400, "corrupted-post-answered-400")
-	sameTrace(traceOf(m, isReq), []string{"A1", "A2"}, "after-rejected-post")
+	zzsameTrace(zztraceOf(m, isReq), []string{"A1", "A2"}, "after-accepted-post")
+	vf.Assert(zzpost(m, cfg) == 400, "corrupted-post-answered-400")
+	zzsameTrace(zztraceOf(m, isReq), []string{"A1", "A2"}, "after-rejected-post")
 	c := `{"header.Append": {"scope": ["request"], "name": "X-Trace", "value": "C1"}}`
-	vf.Assert(post(m, c) == 200, "second-valid-post-accepted")
+	vf.Assert(zzpost(m, c) == 200, "second-valid-post-accepted")
 	if isReq {
-		sameTrace(traceOf(m, true), []string{"C1"}, "after-replacing-post")
+		zzsameTrace(zztraceOf(m, true), []string{"C1"}, "after-replacing-post")
 	} else {
-		sameTrace(traceOf(m, false), nil, "after-replacing-post")
+		zzsameTrace(zztraceOf(m, false), nil, "after-replacing-post")
 	}
 	vf.Reach("done")
 }
